@@ -196,6 +196,7 @@ Proof.
        | context [match i_dy ?x with _ => _ end] => let E := fresh "Edy" in destruct (i_dy x) eqn:E
        | context [match i_st ?x with _ => _ end] => let E := fresh "Est" in destruct (i_st x) eqn:E
        | context [match filter ?f ?l with _ => _ end] => destruct (filter f l)
+       | context [match r_resfail ?r with _ => _ end] => destruct (r_resfail r)
        end; try discriminate.
   all: try (le_finish H).
 Qed.
@@ -211,7 +212,7 @@ Definition final (g : gst) (j : nat) : Prop :=
 Definition creating (p : pc) : option nat :=
   match p with
   | CStChmod1 _ i | CStWrite _ i | CStChmod2 _ i | CRes _ i | CDyOpen _ i | CDyTrunc _ i | CDyFstat _ i
-  | CDyInit _ i | CDyChmod _ i | CPanicRmStatic _ i => Some i
+  | CDyInit _ i | CDyChmod _ i | CPanicRmStatic _ i | CFailRmStatic _ i _ => Some i
   | _ => None
   end.
 
@@ -362,6 +363,7 @@ Ltac step_cases H :=
        | context [match i_dy ?x with _ => _ end] => let E := fresh "Edy" in destruct (i_dy x) eqn:E
        | context [match i_st ?x with _ => _ end] => let E := fresh "Est" in destruct (i_st x) eqn:E
        | context [match filter ?f ?l with _ => _ end] => destruct (filter f l)
+       | context [match r_resfail ?r with _ => _ end] => destruct (r_resfail r)
        end; try discriminate.
 
 Ltac keeps_inst :=
